@@ -1473,4 +1473,193 @@ theorem watchCancel_exact (st : St) (a : Nat) (hok : st.status = .ok) (hl : st.l
   · rw [lists_free]; exact hn_list
   · rw [St.log_free]; exact hn_log
 
+/-! ### 7. C18: the wait, errno, poll slots -/
+
+theorem cfg_raiseSig (st : St) (s : Int) : (raiseSig st s).cfg = st.cfg := by
+  unfold raiseSig
+  split
+  · rfl
+  · split
+    · rfl
+    · split
+      · rfl
+      · split <;> rfl
+
+theorem cfg_foldl_raiseSig (l : List Int) : ∀ st : St, (l.foldl raiseSig st).cfg = st.cfg := by
+  induction l with
+  | nil => intro st; rfl
+  | cons s rest ih => intro st; simp only [List.foldl_cons]; rw [ih, cfg_raiseSig]
+
+theorem cfg_pollRaise (st : St) : (pollRaise st).cfg = st.cfg := by
+  unfold pollRaise; rw [cfg_foldl_raiseSig]
+
+theorem cfg_ppoll (st : St) (t : Option Int) : (ppoll st t).1.cfg = st.cfg := by
+  unfold ppoll
+  split
+  · rw [cfg_pollRaise]; rfl
+  · split
+    · show (pollRaise (pollScan st)).cfg = _; rw [cfg_pollRaise]; rfl
+    · split
+      · show (pollRaise (pollScan st)).cfg = _; rw [cfg_pollRaise]; rfl
+      · show (pollTimeout (pollRaise (pollScan st)) t).cfg = _
+        unfold pollTimeout
+        split
+        · show (pollRaise (pollScan st)).cfg = _; rw [cfg_pollRaise]; rfl
+        · rw [cfg_pollRaise]; rfl
+
+theorem cfg_nextTimerMsec (st : St) : (nextTimerMsec st).1.cfg = st.cfg := by
+  unfold nextTimerMsec
+  split
+  · rfl
+  · split
+    · rfl
+    · split
+      · rw [St.cfg_fail]; rfl
+      · rfl
+
+theorem mem_foldl_setInsert (l : List Int) : ∀ (acc : List Int) (s : Int),
+    (s ∈ l ∨ s ∈ acc) → s ∈ l.foldl (fun acc s => setInsert s acc) acc := by
+  induction l with
+  | nil => intro acc s h; cases h with
+    | inl h => cases h
+    | inr h => exact h
+  | cons x rest ih =>
+    intro acc s h
+    simp only [List.foldl_cons]
+    apply ih
+    cases h with
+    | inl h =>
+      simp only [List.mem_cons] at h
+      cases h with
+      | inl h =>
+        subst h; right
+        unfold setInsert
+        split
+        · rename_i hc; simpa using hc
+        · exact List.mem_cons_self
+      | inr h => exact Or.inl h
+    | inr h =>
+      right
+      unfold setInsert
+      split
+      · exact h
+      · exact List.mem_cons_of_mem _ h
+
+/-- The wait fails with `EINTR` exactly in the third case of the harness's `ppoll`; then `errno` is
+    `EINTR`, nothing stays pending in the kernel, and every signal that was pending has been recorded
+    by the loop's handler. -/
+theorem ppoll_eintr (st : St) (t : Option Int) (h : (ppoll st t).2 = none) :
+    (ppoll st t).1.errno = EINTR ∧ (ppoll st t).1.kpending = [] ∧
+    ∀ s ∈ (pollRaise (pollScan st)).kpending, s ∈ (ppoll st t).1.pendingSig := by
+  unfold ppoll at h ⊢
+  split at h
+  · cases h
+  · split at h
+    · cases h
+    · split at h
+      · rename_i h1 h2 h3
+        rw [if_neg h1, if_neg h2, if_pos h3]
+        refine ⟨rfl, rfl, ?_⟩
+        intro s hs
+        show s ∈ (deliverPending (pollRaise (pollScan st))).pendingSig
+        unfold deliverPending
+        exact mem_foldl_setInsert _ _ _ (Or.inl hs)
+      · cases h
+
+/-- With `errno` read right after the wait (the repaired `evloop_run`), an interrupted wait always
+    leads to `dispatch_signals`, whatever the timer and deferred callbacks did. -/
+theorem tickAfterPoll_eintr_saved (fuel : Nat) (st : St) (hs : st.cfg.errnoSaved = true) (he : st.errno = EINTR)
+    (hok : (invokeTimers fuel st).isOk = true) :
+    tickAfterPoll fuel st none = dispatchSignals fuel (invokeTimers fuel st) := by
+  unfold tickAfterPoll errnoSeen
+  simp only [hok, Bool.not_true, Bool.false_eq_true, if_false, hs, if_true, he]
+
+/-- As shipped, it depends on what the callbacks left in `errno`. -/
+theorem tickAfterPoll_eintr_shipped (fuel : Nat) (st : St) (hs : st.cfg.errnoSaved = false)
+    (hok : (invokeTimers fuel st).isOk = true) :
+    tickAfterPoll fuel st none =
+      if (invokeTimers fuel st).errno = EINTR then dispatchSignals fuel (invokeTimers fuel st) else invokeTimers fuel st := by
+  unfold tickAfterPoll errnoSeen
+  simp only [hok, Bool.not_true, Bool.false_eq_true, if_false, hs]
+
+/-- One iteration, repaired: when the wait is interrupted, signals are dispatched. -/
+theorem tick_eintr_dispatches (fuel : Nat) (st : St) (nohang : Bool) (hs : st.cfg.errnoSaved = true)
+    (hok0 : st.isOk = true) (hok1 : (nextTimerMsec st).1.isOk = true)
+    (hok2 : (ppoll (nextTimerMsec st).1 (tickTimeout nohang (nextTimerMsec st).2)).1.isOk = true)
+    (hint : (ppoll (nextTimerMsec st).1 (tickTimeout nohang (nextTimerMsec st).2)).2 = none)
+    (hok3 : (invokeTimers fuel (ppoll (nextTimerMsec st).1 (tickTimeout nohang (nextTimerMsec st).2)).1).isOk = true) :
+    tick fuel st nohang =
+      dispatchSignals fuel (invokeTimers fuel (ppoll (nextTimerMsec st).1 (tickTimeout nohang (nextTimerMsec st).2)).1) := by
+  unfold tick
+  simp only [hok0, hok1, hok2, Bool.not_true, Bool.false_eq_true, if_false]
+  rw [hint]
+  apply tickAfterPoll_eintr_saved
+  · rw [cfg_ppoll, cfg_nextTimerMsec]; exact hs
+  · exact (ppoll_eintr _ _ hint).1
+  · exact hok3
+
+/-- `evloop_io` with the repair: the slot it hands out has nothing reported. -/
+theorem evloopIo_clears (st : St) (fd : Int) (cond : Nat) (w : Nat) (h : st.cfg.reventsCleared = true) :
+    ((evloopIo st fd cond w).1.pfd.getD (evloopIo st fd cond w).2 default).revents = some 0 := by
+  unfold evloopIo
+  split
+  · rename_i idx hfree
+    have hlt : idx < st.pfd.length := by
+      have : ∀ (l : List PollSlot) (i j : Nat), findFreeSlot l i = some j → i ≤ j ∧ j < i + l.length := by
+        intro l
+        induction l with
+        | nil => intro i j hh; simp [findFreeSlot] at hh
+        | cons x xs ih =>
+          intro i j hh
+          simp only [findFreeSlot] at hh
+          split at hh
+          · cases hh; simp
+          · have := ih (i + 1) j hh
+            simp only [List.length_cons]; omega
+      have := this st.pfd 0 idx hfree
+      omega
+    simp only [h, if_true, List.getD_eq_getElem?_getD, List.getElem?_set, hlt, Option.getD_some]
+  · simp only [h, if_true, List.getD_eq_getElem?_getD]
+    rw [List.getElem?_append_right (Nat.le_refl _)]
+    simp
+
+/-- The kernel's report: after the scan every entry holds exactly what `pollRevents` computes for it. -/
+theorem pollScan_exact (st : St) (idx : Nat) (h : idx < st.pfd.length) :
+    ((pollScan st).pfd.getD idx default).revents = some (pollRevents st (st.pfd.getD idx default)) := by
+  unfold pollScan
+  simp only [List.getD_eq_getElem?_getD, List.getElem?_map]
+  have : st.pfd[idx]? = some st.pfd[idx] := List.getElem?_eq_getElem h
+  rw [this]
+  simp
+
+/-- A cancelled entry (`fd == -1`) is skipped by the descriptor loop. -/
+theorem ioLoop_skips_cancelled (fuel : Nat) (st : St) (idx : Nat) (hok : st.isOk = true) (hlt : idx < st.pfd.length)
+    (hfd : (st.pfd.getD idx default).fd = -1) : ioLoop (fuel + 1) st idx = ioLoop fuel st (idx + 1) := by
+  rw [ioLoop]
+  simp only [hok, Bool.not_true, Bool.false_eq_true, if_false, hfd, if_true]
+  rw [if_neg (by omega)]
+
+/-- An entry with nothing reported is skipped. -/
+theorem ioLoop_skips_quiet (fuel : Nat) (st : St) (idx : Nat) (hok : st.isOk = true) (hlt : idx < st.pfd.length)
+    (hfd : (st.pfd.getD idx default).fd ≠ -1) (hr : (st.pfd.getD idx default).revents = some 0) :
+    ioLoop (fuel + 1) st idx = ioLoop fuel st (idx + 1) := by
+  rw [ioLoop]
+  have : slotRevents (st.pfd.getD idx default) = 0 := by unfold slotRevents; rw [hr]
+  simp only [hok, Bool.not_true, Bool.false_eq_true, if_false, hfd, this, if_true]
+  rw [if_neg (by omega)]
+
+/-- An entry with something reported has its watch invoked with exactly the translation of what is
+    stored in the entry. -/
+theorem ioLoop_invokes (fuel : Nat) (st : St) (idx : Nat) (a : Nat) (hok : st.isOk = true) (hlt : idx < st.pfd.length)
+    (hfd : (st.pfd.getD idx default).fd ≠ -1) (hr : slotRevents (st.pfd.getD idx default) ≠ 0)
+    (hw : (st.pfd.getD idx default).watch = some a) (hl : st.live a = true) :
+    ioLoop (fuel + 1) st idx =
+      ioLoop fuel (invokeWatch st a EV_FIRE (.io (st.getW a).fd (condOfRevents (slotRevents (st.pfd.getD idx default))))) (idx + 1) := by
+  rw [ioLoop]
+  simp only [hok, Bool.not_true, Bool.false_eq_true, if_false, hfd, hr]
+  rw [if_neg (by omega)]
+  unfold ioCb
+  rw [hw]
+  simp only [hl, Bool.not_true, Bool.false_eq_true, if_false]
+
 end Tickit.EvLoop
